@@ -147,6 +147,7 @@ type Engine struct {
 	fmtLenient  bool
 	usedClock   bool
 	lastFn      string
+	randInts    int
 	explicitYield bool
 	gzWriters   map[*Backing]*gzW
 	gzReaders   map[*Backing]*gzR
@@ -728,6 +729,7 @@ func (e *Engine) RunPath(entry *ssa.Function, item WorkItem) (res *PathResult) {
 	e.anyOrder = false
 	e.clockPinned = false
 	e.usedClock = false
+	e.randInts = 0
 	e.syncMaps = nil
 	e.gzWriters, e.gzReaders, e.gzSpin = nil, nil, 0
 	e.shared = map[*Backing]bool{}
